@@ -12,6 +12,21 @@ def hook_commits():
         return []
 
 CHECKS = {
+ "C01": dict(
+    category="exploration", design_ref="DESIGN.md §4 C01",
+    technique="per-group occupancy monitor in every harness callback under stress + hook-driven schedule perturbation and directed gates; Go race detector on deliberately unsynchronised per-group scratch memory as second detector",
+    text="Runs the real Service under 8-16 producers (requests of all types, With/WithResource/WithGroup, query events with requests and expiry, start/stop/start cycles) for every worker count in {1,2,3,8,32} x in-channel size in {1,4,1024}, default/literal/${tag} groups, mounted and through-parent patterns; every callback enters an occupancy counter keyed by the group the harness computes itself; hook points perturb the schedule and directed gate scenarios park a worker/producer inside the retire-vs-append windows. A subset runs under -race where per-group scratch memory turns a missing happens-before edge into a race report. Overlaps on Parallel resources must be seen (else inconclusive). Held on the executions observed.",
+    note="Groups are computed with the reference router (C06); the Go scheduler is not controlled, only perturbed; evidence lists hook hits and contended groups."),
+ "C02": dict(
+    category="exploration", design_ref="DESIGN.md §4 C02",
+    technique="offline exactly-once / ordering checker over the recorded submission+execution log (unique ids, sentinel quiescence, baton for happens-before order), lost wake-ups decided on service state",
+    text="Same executions as C01. Every submission carries a unique id logged before the call; after a final request has passed the listener and a sentinel callback ran on every group, each accepted id must have executed exactly once; per (producer, group, channel) and, with mutex-ordered submissions, per group globally the execution order must equal the submission order; With must fail exactly for unrouted ids; replies must appear inside their callback's interval. Directed gate scenarios make the retire-vs-append windows deterministic.",
+    note="Order between requests of different producers is not observable at the boundary and not asserted; request-vs-With order of one goroutine is not promised and checked per channel."),
+ "C03": dict(
+    category="exploration", design_ref="DESIGN.md §4 C03",
+    technique="bounded-progress monitor decided on service state + goroutine profile, panic capture per API call, sequence-number drain check, directed hook gates for the Shutdown windows, race detector",
+    text="Shutdown of a real Service races with 8 producers using every API the statement lists, over 4 worker counts and many start/stop cycles, plus directed scenarios that park a submission between the started-check and the lock while Shutdown is parked before/after waking the workers (G1/G2), park publishing calls before they read the connection until Shutdown returned (G3), keep a callback in flight (G4), call Shutdown twice (G5) and Serve while stopping (G6). A hang is reported only for the stable deadlock pattern seen on 3 samples; panics of API calls are recovered and reported; callback entry/exit sequence numbers are compared with the return of Shutdown; workers must be gone, Close called once, Serve returned, and a restarted service must run an exactly-once workload.",
+    note="Liveness restated as bounded progress; wall clock only as a 30 s watchdog whose firing is inconclusive."),
  "C04": dict(
     category="exploration", design_ref="DESIGN.md §4 C04",
     technique="exactly-once monitor over the recorded connection log: responses per unique reply inbox counted after the request.done hook, across generated handler behaviour scripts; concurrent runs under the Go race detector",
